@@ -256,7 +256,91 @@ def r8_function_level_globals_precede_every_use(ctx):
     ctx.ob("C01.R8", f"{OPT}::sync and async function visitors agree", OPT, cls.lineno, ok, "" if ok else "only one of the two function visitors hoists the declarations")
 
 
+VALUE_FIELDS = ("target", "init")
+
+
+def _in_expr_pos(node, fn) -> bool:
+    return any(isinstance(a, ast.With) and any(P.un(it.context_expr) == "ctx.expr_pos()" for it in a.items) for a in P.ancestors(node) if P.contains(fn, a))
+
+
+@rule("C01.R9", floor=8)
+def r9_needed_children_are_expressions(ctx):
+    """A child form whose value its parent consumes -- the init of a let* / loop* binding, the target
+    of a host call or field access -- is analyzed in expression position whatever position the
+    parent is in.  Analyzed in the parent's position, an if / do / let used there in a statement
+    context is compiled as a statement and its value is dropped (the generator hands back nil)."""
+    tree = ctx.py(ANA)
+    mod_fns = {f.name: f for f in tree.body if isinstance(f, P.FUNC)}
+
+    def helper_is_expr(fname):
+        f = mod_fns.get(fname)
+        if f is None:
+            return False
+        calls = [c for c in P.calls(f) if P.un(c.func) == "_analyze_form"]
+        return bool(calls) and all(_in_expr_pos(c, f) for c in calls)
+
+    n = 0
+    for fn in mod_fns.values():
+        for c in ast.walk(fn):
+            if not isinstance(c, ast.Call):
+                continue
+            for k in c.keywords:
+                if k.arg not in VALUE_FIELDS:
+                    continue
+                v = k.value
+                ana = [x for x in ast.walk(v) if isinstance(x, ast.Call) and isinstance(x.func, ast.Name) and (x.func.id == "_analyze_form" or x.func.id.startswith("_analyze_"))]
+                if not ana and isinstance(v, ast.Name):
+                    # a local computed earlier in the handler
+                    ana = [a.value for a in ast.walk(fn) if isinstance(a, ast.Assign) and P.un(a.targets[0]) == v.id and isinstance(a.value, ast.Call) and isinstance(a.value.func, ast.Name) and a.value.func.id.startswith("_analyze_")]
+                if not ana:
+                    continue
+                n += 1
+                ok = all((x.func.id == "_analyze_form" and _in_expr_pos(x, fn)) or (x.func.id != "_analyze_form" and (helper_is_expr(x.func.id) or _in_expr_pos(x, fn))) for x in ana)
+                ctx.ob("C01.R9", f"{ANA}::{fn.name}::{P.un(c.func)}({k.arg}=...) #{sum(1 for y in ast.walk(fn) if isinstance(y, ast.Call) and y.lineno < c.lineno and any(kk.arg == k.arg for kk in y.keywords))}", ANA, k.value.lineno, ok,
+                       "" if ok else f"`{k.arg}={P.un(v)[:60]}` is analyzed in the position of the parent form: in statement position an if / let / do used as the {k.arg} is compiled as a statement and yields nil",
+                       witness="(when true (.append (if true l1 l2) 1) :after) => AttributeError: 'NoneType' object has no attribute 'append'")
+    if n == 0:
+        raise AnalysisError("no node constructor with a target= / init= child found in the analyzer")
+
+
+@rule("C01.R10", floor=2)
+def r10_catch_local_outlives_the_handler(ctx):
+    """Python unbinds the name of an `except ... as <name>` clause when the handler exits.  The name
+    under which the catch local is registered in the symbol table (and so the name closures made
+    in the catch body refer to) must therefore not be that name: the handler binds a name of its
+    own and assigns it to the local first."""
+    fn = ctx.fn(GEN, "__catch_to_py_ast")
+    reg = [c for c in P.calls(fn) if P.un(c.func).endswith("symbol_table.new_symbol") and len(c.args) >= 3 and "CATCH" in P.un(c.args[2])]
+    handlers = [c for c in P.calls(fn) if P.un(c.func) == "ast.ExceptHandler"]
+    if not reg or not handlers:
+        raise AnalysisError("__catch_to_py_ast no longer registers the catch local / builds ast.ExceptHandler in the recognised way")
+    local_name = P.un(reg[0].args[1])
+    h = handlers[0]
+    hname = next((P.un(k.value) for k in h.keywords if k.arg == "name"), None)
+    ok = hname is not None and hname != local_name
+    ctx.ob("C01.R10", f"{GEN}::__catch_to_py_ast::the handler's own name is not the catch local", GEN, h.lineno, ok,
+           "" if ok else f"the catch local `{local_name}` is the `except ... as` name, which Python deletes when the handler exits: a function created in the catch body and called later fails with NameError",
+           witness="(def f (try (throw (python/ValueError \"boom\")) (catch python/ValueError e (fn [] (str e))))) (f) => NameError")
+    body = next((k.value for k in h.keywords if k.arg == "body"), None)
+    assigns = [c for c in ast.walk(body) if isinstance(c, ast.Call) and P.un(c.func) == "ast.Assign" and f"ast.Name(id={local_name}, ctx=ast.Store())" in P.un(c) and hname is not None and f"ast.Name(id={hname}, ctx=ast.Load())" in P.un(c)] if body is not None else []
+    first = False
+    if assigns and body is not None:
+        txt = P.un(body)
+        first = txt.index(P.un(assigns[0])) < txt.index("catch_ast") if "catch_ast" in txt else True
+    ok2 = (hname == local_name) or (bool(assigns) and first)
+    ctx.ob("C01.R10", f"{GEN}::__catch_to_py_ast::the catch local is assigned from the handler's name before the body", GEN, h.lineno, ok2,
+           "" if ok2 else f"the handler binds `{hname}` but the catch local `{local_name}` is not assigned from it before the catch body runs")
+
+
 SELFTEST = [
+    {"name": "let* init analyzed in the parent's position (the repaired defect)", "file": ANA, "expect": "C01.R9", "nth": 0,
+     "old": "                init=_analyze_value_form(value, ctx),", "new": "                init=_analyze_form(value, ctx),"},
+    {"name": "host call target analyzed in the parent's position (the repaired defect)", "file": ANA, "expect": "C01.R9", "nth": 0,
+     "old": "target=_analyze_value_form(runtime.nth(form, 1), ctx),", "new": "target=_analyze_form(runtime.nth(form, 1), ctx),"},
+    {"name": "the value helper stops switching to expression position", "file": ANA, "expect": "C01.R9",
+     "old": "    with ctx.expr_pos():\n        return _analyze_form(form, ctx)\n\n\ndef _host_call_ast", "new": "    return _analyze_form(form, ctx)\n\n\ndef _host_call_ast"},
+    {"name": "catch local is the except-as name (the repaired defect)", "file": GEN, "expect": "C01.R10",
+     "old": "            name=handler_exc_name,\n", "new": "            name=catch_exc_name,\n"},
     {"name": "global declarations left in place (the repaired defect)", "file": OPT, "expect": "C01.R8",
      "old": "        if self._is_function_context:\n", "new": "        if False:\n",
      "edits": [
